@@ -32,7 +32,11 @@ impl Obs {
         Obs { s: String::new() }
     }
     pub fn f(&mut self, name: &str, g: impl FnOnce() -> f64) {
+        #[cfg(not(any(feature = "std", feature = "libm")))]
+        ABSENT.with(|a| a.set(false));
         match catch_unwind(AssertUnwindSafe(g)) {
+            #[cfg(not(any(feature = "std", feature = "libm")))]
+            Ok(_) if ABSENT.with(|a| a.get()) => {}
             Ok(v) => write!(self.s, " {}={}", name, hex(v)).unwrap(),
             Err(_) => write!(self.s, " {}=!", name).unwrap(),
         }
@@ -197,6 +201,30 @@ pub trait Est: Sized + Clone {
         None
     }
 }
+
+// ---------------------------------------------------------------------------------------
+// Accessors that exist only with the `std` / `libm` features.  In a build without them (`bare`) the calls below resolve to
+// this fallback trait, which reports "absent"; should the crate provide the inherent method there too, method resolution
+// prefers it and its value is observed like any other.
+#[cfg(not(any(feature = "std", feature = "libm")))]
+thread_local! { pub static ABSENT: std::cell::Cell<bool> = std::cell::Cell::new(false); }
+#[cfg(not(any(feature = "std", feature = "libm")))]
+pub trait FloatFnFallback {
+    fn error(&self) -> f64 {
+        ABSENT.with(|a| a.set(true));
+        f64::NAN
+    }
+    fn pearson(&self) -> f64 {
+        ABSENT.with(|a| a.set(true));
+        f64::NAN
+    }
+}
+#[cfg(not(any(feature = "std", feature = "libm")))]
+impl FloatFnFallback for average::Variance {}
+#[cfg(not(any(feature = "std", feature = "libm")))]
+impl FloatFnFallback for average::WeightedMeanWithError {}
+#[cfg(not(any(feature = "std", feature = "libm")))]
+impl FloatFnFallback for average::Covariance {}
 
 // ---------------------------------------------------------------------------------------
 // rayon plumbing
@@ -402,6 +430,7 @@ impl Est for average::Variance {
     }
 }
 
+#[cfg(any(feature = "std", feature = "libm"))]
 impl Est for average::Skewness {
     single_common!(average::Skewness);
     trait_add!(average::Skewness);
@@ -418,6 +447,7 @@ impl Est for average::Skewness {
     }
 }
 
+#[cfg(any(feature = "std", feature = "libm"))]
 impl Est for average::Kurtosis {
     single_common!(average::Kurtosis);
     trait_add!(average::Kurtosis);
@@ -447,11 +477,14 @@ macro_rules! moments_est {
                 for p in 0..=$n {
                     o.f(&format!("cm{}", p), || self.central_moment(p));
                 }
+                #[cfg(any(feature = "std", feature = "libm"))]
                 for p in 0..=$n {
                     o.f(&format!("sm{}", p), || self.standardized_moment(p));
                 }
                 o.f("sample_variance", || self.sample_variance());
+                #[cfg(any(feature = "std", feature = "libm"))]
                 o.f("sample_skewness", || self.sample_skewness());
+                #[cfg(any(feature = "std", feature = "libm"))]
                 o.f("sample_excess_kurtosis", || self.sample_excess_kurtosis());
             }
         }
@@ -465,6 +498,9 @@ moments_est!(M7, 7usize);
 moments_est!(M8, 8usize);
 moments_est!(M9, 9usize);
 moments_est!(M10, 10usize);
+moments_est!(M12, 12usize);
+moments_est!(M17, 17usize);
+moments_est!(M20, 20usize);
 
 impl Est for average::Min {
     single_common!(average::Min);
@@ -492,6 +528,7 @@ impl Est for average::Max {
     }
 }
 
+#[cfg(any(feature = "std", feature = "libm"))]
 impl Est for average::Quantile {
     fn mk_new(p: &Params) -> Self {
         average::Quantile::new(p.p)
@@ -650,11 +687,14 @@ macro_rules! cat_est {
     };
 }
 cat_est!(WCatMinMax, CatMinMax, [min, max]);
+#[cfg(any(feature = "std", feature = "libm"))]
 cat_est!(WCatVarQ, CatVarQ, [mean, sample_variance, population_variance, error, quantile]);
+#[cfg(any(feature = "std", feature = "libm"))]
 cat_est!(
     WCat5,
     Cat5,
     [mean, kurtosis, skewness, population_variance, min, max, sample_variance, sample_skewness,
      sample_excess_kurtosis]
 );
+#[cfg(any(feature = "std", feature = "libm"))]
 cat_est!(WCatSk3, CatSk3, [skewness, error, mean]);
